@@ -382,7 +382,7 @@ static int get_d_t_(struct module_data *m, int size, HIO_HANDLE *f, void *parm)
 	}
 
 	CLAMP(name_len, 0, XMP_NAME_SIZE - 1);	/* leave room for the terminator */
-	hio_read(mod->name, name_len, 1, f);
+	hio_read(mod->name, 1, name_len, f);	/* items of 1 byte: an empty name is not a read error */
 	libxmp_set_type(m, "Digital Tracker DTM");
 
 	MODULE_INFO();
